@@ -44,7 +44,7 @@ def _exc(e):
 
 
 def budget(tier):
-    return {"examples": 2400 if tier == "quick" else 40000, "shards": 16, "shrink": 300 if tier == "quick" else 1500}
+    return {"examples": 8000 if tier == "quick" else 80000, "shards": 16, "shrink": 300 if tier == "quick" else 1500}
 
 
 # ----------------------------------------------------------------------------------------------------------------
